@@ -342,6 +342,69 @@ pub fn c15_concat_distinct() {
     std::mem::forget(c);
 }
 
+/// `a.concat(&b)` with an EMPTY right operand (and with an empty left one): the result equals the non-empty operand
+/// but is a new storage - a push through it is not visible through either operand. (The general two-list
+/// concatenation exceeds the CBMC budget; the empty-operand cases are the ones a "nothing to append" shortcut touches.)
+macro_rules! concat_empty {
+    ($name:ident, $left_empty:expr) => {
+        #[cfg_attr(kani, kani::proof)]
+        #[cfg_attr(kani, kani::unwind(6))]
+        #[cfg_attr(kani, kani::stub(std::sync::Mutex::lock, crate::stubs::mutex_lock_stub))]
+        pub fn $name() {
+            let full: List<u64> = List::new();
+            let empty: List<u64> = List::new();
+            let x: u64 = any();
+            full.push(x);
+            let c = if $left_empty { empty.concat(&full) } else { full.concat(&empty) };
+            assert!(c.len() == 1 && c.get(0) == Some(x), "concat with an empty operand is not the other operand's content");
+            let z: u64 = any();
+            c.push(z);
+            assert!(c.len() == 2 && c.get(1) == Some(z));
+            assert!(full.len() == 1 && empty.len() == 0, "push through the concatenation is visible through an operand (aliased storage)");
+            cover!(true, "reached_end");
+            std::mem::forget(full);
+            std::mem::forget(empty);
+            std::mem::forget(c);
+        }
+    };
+}
+concat_empty!(c15_concat_empty_right, false);
+concat_empty!(c15_concat_empty_left, true);
+
+/// A list whose element type has a niche-optimised Rust layout smaller than its boundary representation
+/// (`Option<bool>`: 1 byte in Rust, 2 bytes as `RotoOption<bool>`), built through the Rust API: three pushes, then
+/// every element reads back as pushed (strides must be those of the stored representation).
+#[cfg_attr(kani, kani::proof)]
+#[cfg_attr(kani, kani::unwind(6))]
+#[cfg_attr(kani, kani::stub(std::sync::Mutex::lock, crate::stubs::mutex_lock_stub))]
+pub fn c15_option_bool_elements() {
+    let l: List<Option<bool>> = List::new();
+    let v: [Option<bool>; 3] = [any_opt_bool(), any_opt_bool(), any_opt_bool()];
+    l.push(v[0]);
+    l.push(v[1]);
+    l.push(v[2]);
+    let i: usize = any();
+    assume(i <= 3);
+    let g = l.get(i);
+    if i < 3 {
+        assert!(g == Some(v[i]), "element read back differs from the element pushed");
+    } else {
+        assert!(g.is_none());
+    }
+    cover!(i == 0 && v[0] == Some(true) && v[1] == Some(true) && v[2].is_none(), "the_documented_example");
+    std::mem::forget(l);
+}
+
+fn any_opt_bool() -> Option<bool> {
+    let k: u8 = any();
+    assume(k < 3);
+    match k {
+        0 => None,
+        1 => Some(false),
+        _ => Some(true),
+    }
+}
+
 /// concat that has to grow the result beyond one doubling: elements larger than 1024 bytes start at capacity 1,
 /// so [e1] ++ [e2, e3] needs 3 slots after a first allocation of 1.
 #[cfg_attr(kani, kani::proof)]
@@ -372,6 +435,9 @@ pub fn c15_concat_growth_big() {
 }
 
 crate::list![
+    c15_concat_empty_right,
+    c15_concat_empty_left,
+    c15_option_bool_elements,
     c15_eq_rust_lengths,
     c15_concat_distinct,
     c15_concat_growth_big,
